@@ -105,7 +105,7 @@ def dense_spec(rng, nt=None, nc=None, ns=None, nsw=None, curated=None, whiten=No
     if shanks if shanks is not None else rng.random() < .3:
         spec['channel_shanks'] = [rng.randrange(2) for _ in range(nc)]
     if probes:
-        spec['channel_probes'] = sorted(rng.randrange(2) for _ in range(nc))
+        spec['channel_probes'] = sorted(rng.randrange(rng.pick([2, 2, 3, 4])) for _ in range(nc))       # 1..4 probes, in blocks
     w = whiten if whiten is not None else rng.pick(['none', 'diag', 'diag+inv', 'tri', 'tri+inv', 'tri-invonly', 'diag-invonly'])
     if w.startswith('tri'):
         # non-symmetric whitening with an exactly representable inverse: unit upper-triangular, small integers
